@@ -854,4 +854,21 @@ theorem laws : Laws (sys env) (fun w => w) (fun b o => dom env b o = true) where
     intro w o e _ herr
     exact doOp_atomic env w o e herr
 
+
+/-- executable form of `AllDom` for the concrete model (used by the driver and the examples) -/
+def allDomB : St Book Diff → List (Cmd Op) → Bool
+  | _, [] => true
+  | s, cmd :: cs =>
+    (match cmd with
+      | .op o => dom env s.w o
+      | _ => true) && allDomB (step (sys env) s cmd).1 cs
+
+theorem allDomB_spec : ∀ (cs : List (Cmd Op)) (s : St Book Diff), allDomB env s cs = true →
+    AllDom (sys env) (fun b o => dom env b o = true) s cs
+  | [], _, _ => trivial
+  | cmd :: cs, s, h => by
+    simp only [allDomB, Bool.and_eq_true] at h
+    refine ⟨?_, allDomB_spec cs _ h.2⟩
+    cases cmd <;> simp_all [CmdDom]
+
 end IronCalc.User
